@@ -43,7 +43,7 @@ impl RunCfg {
     }
 }
 
-fn num<T: ToString>(v: T) -> Value {
+pub fn num<T: ToString>(v: T) -> Value {
     Value::String(v.to_string())
 }
 
@@ -111,6 +111,12 @@ fn pret(fname: &str, mut v: Value) -> bool {
     }
     let cont = matches!(v["res"].as_str(), Some("ok") | Some("some"));
     let stop = matches!(v["res"].as_str(), Some("err") | Some("panic"));
+    if cont && v["item"] != json!(["nohdr"]) && v["item"] != json!(["section"]) && v["item"] != json!(["nocomment"]) {
+        COLLECTED.with(|c| c.borrow_mut().push(v["item"].clone()));
+    }
+    if stop {
+        RUN_FAILED.with(|c| c.set(true));
+    }
     STOPPED.with(|c| c.set(stop));
     trace::rec(v);
     cont
@@ -200,7 +206,7 @@ macro_rules! dimacs_family {
     }};
 }
 
-fn lits_json<L: flussab_cnf::Dimacs>(l: &[L]) -> Value {
+pub fn lits_json<L: flussab_cnf::Dimacs>(l: &[L]) -> Value {
     Value::Array(l.iter().map(|x| num(x.dimacs())).collect())
 }
 
@@ -242,7 +248,7 @@ macro_rules! run_log { ($reader:expr, $cfg:expr, $L:ty) => {{
     });
 }}; }
 
-fn sym_json(s: &flussab_aiger::aig::Symbol) -> Value {
+pub fn sym_json(s: &flussab_aiger::aig::Symbol) -> Value {
     use flussab_aiger::aig::SymbolTarget::*;
     let (k, i) = match s.target {
         Input(i) => ("i", i),
@@ -256,7 +262,7 @@ fn sym_json(s: &flussab_aiger::aig::Symbol) -> Value {
     json!(["sym", k, num(i), bytes_json(s.name.as_bytes())])
 }
 
-fn init_json(i: Option<bool>) -> &'static str {
+pub fn init_json(i: Option<bool>) -> &'static str {
     match i {
         Some(false) => "0",
         Some(true) => "1",
@@ -341,11 +347,11 @@ macro_rules! aiger_sections {
     }};
 }
 
-fn hdr_json_a(h: &flussab_aiger::ascii::Header) -> Value {
+pub fn hdr_json_a(h: &flussab_aiger::ascii::Header) -> Value {
     json!(["hdr", num(h.max_var_index), num(h.input_count), num(h.latch_count), num(h.output_count), num(h.and_gate_count),
            num(h.bad_state_property_count), num(h.invariant_constraint_count), num(h.justice_property_count), num(h.fairness_constraint_count)])
 }
-fn hdr_json_b(h: &flussab_aiger::binary::Header) -> Value {
+pub fn hdr_json_b(h: &flussab_aiger::binary::Header) -> Value {
     json!(["hdr", num(h.max_var_index), num(h.input_count), num(h.latch_count), num(h.output_count), num(h.and_gate_count),
            num(h.bad_state_property_count), num(h.invariant_constraint_count), num(h.justice_property_count), num(h.fairness_constraint_count)])
 }
@@ -536,6 +542,16 @@ thread_local! {
 pub fn set_corruption(c: Option<(usize, usize, usize, &'static str)>) {
     CORRUPTION.with(|x| x.set(c));
 }
+thread_local! {
+    static EXPECT: std::cell::RefCell<Option<Value>> = const { std::cell::RefCell::new(None) };
+    /// items returned by the calls of the current / last run (non-items excluded)
+    pub static COLLECTED: std::cell::RefCell<Vec<Value>> = const { std::cell::RefCell::new(Vec::new()) };
+    pub static RUN_FAILED: std::cell::Cell<bool> = const { std::cell::Cell::new(false) };
+}
+/// the following runs must end cleanly and return exactly these items (round trip, C03)
+pub fn set_expect(e: Option<Value>) {
+    EXPECT.with(|c| *c.borrow_mut() = e);
+}
 pub fn set_group(g: Option<String>) {
     GROUP.with(|c| *c.borrow_mut() = g);
 }
@@ -545,9 +561,13 @@ pub fn run_traced(id: u64, input: &[u8], cfg: &RunCfg) {
     let limit = cfg.fault.unwrap_or(input.len()).min(input.len());
     let group = GROUP.with(|c| c.borrow().clone()).unwrap_or_default();
     let cor = CORRUPTION.with(|x| x.get());
+    let expect = EXPECT.with(|c| c.borrow().clone());
+    COLLECTED.with(|c| c.borrow_mut().clear());
+    RUN_FAILED.with(|c| c.set(false));
     trace::rec(json!({"ev":"reset","kind":"parser","id":id,"group":group,
         "corrupt":cor.is_some(),"cline":cor.map_or(0, |c| c.0),"clo":cor.map_or(0, |c| c.1),"chi":cor.map_or(0, |c| c.2),
-        "ckind":cor.map_or("", |c| c.3),"parser":cfg.parser,"lit":cfg.lit,"flag":cfg.flag,
+        "ckind":cor.map_or("", |c| c.3),
+        "has_expect":expect.is_some(),"expect":expect.unwrap_or(json!([])),"parser":cfg.parser,"lit":cfg.lit,"flag":cfg.flag,
         "input":bytes_json(input),"limit":limit,"faulty":cfg.fault.is_some(),"chunk":cfg.chunk,
         "policy":policy_json(&cfg.policy),"lines": matches!(cfg.policy, Policy::Lines), "intr":cfg.intr_pm > 0,
         "ref":cfg.is_ref,"build":cfg.build,"bufreader":cfg.bufreader.is_some()}));
